@@ -128,7 +128,17 @@ QueryVerdict0(q0, e, c0) ==
           ELSE IF q.proj = <<"*">> /\ ~(ex.vars \subseteq SToSet(r.vars)) THEN "ProjectOK"
           ELSE IF \E i \in 1..Len(r.rows) : ~(DOMAIN r.rows[i] \subseteq ex.vars) THEN "ProjectOK"
           ELSE IF Has(q, "reduced") /\ q.reduced
-               THEN (IF SToSet(r.rows) = SToSet(ex.rows) /\ SubBag(r.rows, ex.rows) THEN "ok" ELSE "ReducedOK")
+               THEN \* REDUCED: each solution between once and as often as it occurs; with LIMIT n (no OFFSET) the slice is taken AFTER
+                    \* the reduction, so at least min(n, number of distinct solutions) rows come back
+                    (IF off = 0 /\ lim < 0
+                     THEN (IF ~(SToSet(r.rows) = SToSet(ex.rows) /\ SubBag(r.rows, ex.rows)) THEN "ReducedOK"
+                           ELSE IF ~OrderedOK(r.rows, keys, c) THEN "OrderedOK" ELSE "ok")
+                     ELSE IF off = 0
+                     THEN (IF ~(SToSet(r.rows) \subseteq SToSet(ex.rows) /\ SubBag(r.rows, ex.rows)) THEN "ReducedOK"
+                           ELSE IF Len(r.rows) > lim THEN "SliceOK"
+                           ELSE IF Len(r.rows) < lim /\ Len(r.rows) < Cardinality(SToSet(ex.rows)) THEN "ReducedSlice"
+                           ELSE IF ~OrderedOK(r.rows, keys, c) THEN "OrderedOK" ELSE "ok")
+                     ELSE "ok")
           ELSE IF off = 0 /\ lim < 0
                THEN (IF ~BagEq(r.rows, ex.rows) THEN (IF Has(q, "distinct") /\ q.distinct THEN "DistinctOK" ELSE "SolutionsAgree")
                      ELSE IF ~OrderedOK(r.rows, keys, c) THEN "OrderedOK" ELSE "ok")
